@@ -441,6 +441,7 @@ func runC04(h *H) {
 			h.DoRisky("thrift.reset", thriftProtos[h.Intn(3)], thriftProtos[h.Intn(3)], ts, val)
 		}
 	}
+	h.ptRetainCases("thrift.retain") // call histories: results retained across further calls (ptretain.go)
 }
 
 // ---- C13 -----------------------------------------------------------------------------------------
